@@ -599,3 +599,30 @@ def enclosing_all(pm, node, kinds):
             out.append(n)
         n = pm.get(n)
     return out
+
+
+def protocol_body(prog, cls, name, _depth=0):
+    """The method that carries the protocol of the public entry `name`, and its statements.
+
+    An entry may run its work in internal units in one of two forms, both of which leave the protocol
+    itself unchanged:  the whole body (after the docstring) is one `with energy_units("int"):` block,
+    or it is such a block whose only statement returns `self._helper(<the entry's own parameters>)`.
+    Returns (FuncInfo of the method holding the statements, list of statements)."""
+    f = prog.find_method(cls, name)
+    if f is None:
+        raise AnalysisError("%s has no method %s" % (cls.name, name))
+    body = list(f.node.body)
+    if body and isinstance(body[0], ast.Expr) and isinstance(body[0].value, ast.Constant) \
+            and isinstance(body[0].value.value, str):
+        body = body[1:]
+    if len(body) == 1 and isinstance(body[0], ast.With) and len(body[0].items) == 1 \
+            and norm(body[0].items[0].context_expr) in ('energy_units("int")', "energy_units('int')"):
+        body = list(body[0].body)
+        if len(body) == 1 and isinstance(body[0], ast.Return) and isinstance(body[0].value, ast.Call) and _depth < 2:
+            c = body[0].value
+            params = [a.arg for a in f.node.args.args[1:]]
+            passed = [norm(a) for a in c.args] + [norm(k.value) for k in c.keywords]
+            if isinstance(c.func, ast.Attribute) and isinstance(c.func.value, ast.Name) and c.func.value.id == "self" \
+                    and sorted(passed) == sorted(params) and all(k.arg == norm(k.value) for k in c.keywords):
+                return protocol_body(prog, cls, c.func.attr, _depth + 1)
+    return f, body
